@@ -23,7 +23,8 @@ LEVEL_TEXT = ("Decides the sentence 'every specification key corresponds to one 
               'identity statements are decided on bounded families by abstract evaluation: split_blocks on every opcode '
               'sequence of length <= 4 over {ordinary, split, store, terminating} (C14.g), the numeric partition on every '
               'cut set of small lists (C14.f), rebuild(B, nothing replaced) = B on the block family of C09.f (C14.h), and '
-              'the helpers that receive the sub-block list leave it intact (C14.i).')
+              'the helpers that receive the sub-block list leave it intact (C14.i).'
+              ' Added in seeding rounds 8-9: the reported sub-block list is the translated one on every path (C14.k, reaching definitions) and the sub-block after a result-bearing split instruction starts from its result in every spelling the translator uses (C14.l).')
 EXPLANATION = ("Writer: generate_json stores blocks_json_dict[block_name + '_' + str(subblock)] (or + '_0' when unsplit); reader: "
                "rebuild_optimized_asm_block looks up previous_block.block_name + '_' + str(enumerate index).")
 NOT_DECIDED = ('the same statements for blocks outside the evaluated families; where the numeric heuristic chooses to cut')
